@@ -675,6 +675,16 @@ def merged_opts(case, step):
 
 
 def gen_control(rng):
+  k = rng.below(6)
+  if k >= 4:
+    n = rng.randint(1, 3)
+    lab = lambda: {'text': gen_string(rng), 'tooltip': gen_string(rng) if rng.chance(0.4) else None,
+                   'css': [rng.choice(CSS) for _ in range(rng.below(2))], 'badge': rng.chance(0.3)}
+    if k == 4:
+      return {'op': 'control', 'kind': 'label_group', 'labels': [lab() for _ in range(n)],
+              'name': lab() if rng.chance(0.7) else None, 'css': [rng.choice(CSS) for _ in range(rng.below(2))]}
+    return {'op': 'control', 'kind': 'badge', 'text': gen_string(rng),
+            'tooltip': gen_string(rng) if rng.chance(0.5) else None}
   k = rng.below(4)
   css = lambda: [rng.choice(CSS) for _ in range(rng.below(3))]
   styles = lambda: [[k2, rng.choice(['red', '3px', None])] for k2 in rng.sample(['color', 'margin_top', 'width'], rng.below(3))]
@@ -1037,6 +1047,8 @@ class C20(Prop):
               'id': ocps(id), 'tip_id': ocps(tip_id), 'css': [cps(x) for x in css], 'styles': kvs(styles)}
 
     k = case['kind']
+    if k in ('label_group', 'badge'):
+      return None            # oracle only
     if k == 'label':
       inter = case.get('interactive', False)
       lid = case.get('id') or ('control-0' if inter else None)
@@ -1590,6 +1602,14 @@ class C20(Prop):
                               link=case['link'], target=case.get('target'), id=case.get('id'),
                               css_classes=list(case.get('css', [])), styles=st(case.get('styles')),
                               interactive=case.get('interactive', False))
+      if k == 'badge':
+        return controls.Badge(f(case['text']), tooltip=None if case['tooltip'] is None else f(case['tooltip']))
+      if k == 'label_group':
+        mk = lambda l: (controls.Badge if l.get('badge') else controls.Label)(
+            f(l['text']), tooltip=None if l['tooltip'] is None else f(l['tooltip']), css_classes=list(l.get('css', [])))
+        return controls.LabelGroup([mk(l) for l in case['labels']],
+                                   name=None if case['name'] is None else mk(case['name']),
+                                   css_classes=list(case.get('css', [])))
       if k == 'tooltip':
         return controls.Tooltip(f(case['text']), for_element='.x', id=case.get('id'),
                                 css_classes=list(case.get('css', [])), styles=st(case.get('styles')))
@@ -1610,24 +1630,56 @@ class C20(Prop):
           selected=case.get('selected', 0), tab_position='left' if case.get('left') else 'top',
           id=case.get('id'), css_classes=list(case.get('css', [])), styles=st(case.get('styles')))
 
+    def snap(v):
+      """The symbolic value as data: every field of every nested member (pg.to_json with the
+      opaque Html leaves replaced by what they say, so that caches inside them do not count)."""
+      if isinstance(v, pg.Symbolic):
+        return [type(v).__name__, [[str(k), snap(x)] for k, x in v.sym_items()]]
+      if isinstance(v, pg.Html):
+        return ['Html', v.to_str()]
+      if isinstance(v, (list, tuple)):
+        return [type(v).__name__] + [snap(x) for x in v]
+      if isinstance(v, dict):
+        return ['dict'] + [[str(k), snap(x)] for k, x in v.items()]
+      return repr(v)
+
     try:
-      h = build(lambda s: s).to_html_str(content_only=True)
+      ctl = build(lambda s: s)
+      snap0 = snap(ctl)
+      json0 = pg.to_json_str(ctl) if case['kind'] != 'tab' else None    # Tab.content is an opaque (pickled) Html
+      h = ctl.to_html_str(content_only=True)
+      snap1, eq1 = snap(ctl), (json0 is None or pg.to_json_str(ctl) == json0)
+      h2 = ctl.to_html_str(content_only=True)
+      ctl.to_html()
+      snap2, eq2 = snap(ctl), (json0 is None or pg.to_json_str(ctl) == json0)
       b = build(lambda s: 'x' * len(s)).to_html_str(content_only=True)
     except Exception as e:   # pylint: disable=broad-except
       return {'error': type(e).__name__, 'message': str(e)[:200]}
+    modified = None
+    if snap1 != snap0 or not eq1:
+      modified = 'after one render'
+    elif snap2 != snap0 or not eq2:
+      modified = 'after further renders'
+    rerender_same = canon_ids(h2) == canon_ids(h)
     h = canon_ids(h)
     tree, why = strict_parse(h)
     btree, bwhy = strict_parse(b)
     out = {'why': why, 'benign_ok': btree is not None, 'ok': tree is not None,
+           'modified': modified, 'rerender_same': rerender_same,
            'model': {'html': h, 'doc': None if tree is None else strip_doc(tree)}}
     if tree is not None and btree is not None:
       sk = lambda t: [[n[0], [k for k, _ in n[1]], sk(n[2])] for n in t if isinstance(n, list)]
       out['skeleton_equal'] = sk(tree) == sk(btree)
       texts = texts_of(tree)
-      want = [case['text']] if case['kind'] in ('label', 'tooltip') else (
+      if case['kind'] == 'label_group':
+        ls = case['labels'] + ([case['name']] if case['name'] else [])
+        want_lg = [l['text'] for l in ls] + [l['tooltip'] for l in ls if l['tooltip']]
+        out['missing'] = [w for w in want_lg if w and w not in texts]
+        return out
+      want = [case['text']] if case['kind'] in ('label', 'tooltip', 'badge') else (
           case['labels'] if case['kind'] == 'tab' else [])
       out['missing'] = [w for w in want if w and w not in texts]
-      if case['kind'] == 'label' and case['tooltip']:
+      if case['kind'] in ('label', 'badge') and case['tooltip']:
         out['missing'] += [w for w in [case['tooltip']] if w not in texts]
       if case['kind'] == 'tab':
         out['missing'] += [w for w in (case.get('tooltips') or []) if w and w not in texts]
@@ -1836,6 +1888,12 @@ class C20(Prop):
       return {'signature': 'control-data-changes-structure:' + k, 'what': 'structure differs from benign twin'}
     if out['missing']:
       return {'signature': 'control-text-missing:' + k, 'what': 'texts %r not in output' % out['missing']}
+    if out.get('modified'):
+      return {'signature': 'value-modified:' + k,
+              'what': 'rendering the %s control modified it (fields of the control and its nested members / pg.to_json_str, before vs after) %s' % (
+                  k, out['modified'])}
+    if not out.get('rerender_same', True):
+      return {'signature': 'control-rerender-differs:' + k, 'what': 'a second render of the same control differs from the first'}
     return None
 
   # -- bookkeeping ---------------------------------------------------------------------------
@@ -1857,7 +1915,8 @@ class C20(Prop):
         ss.append(case['opts']['name'])
       return any(has_meta(s) for s in ss)
     return any(has_meta(s) for s in [case.get('text') or '', case.get('tooltip') or ''] + case.get('names', [])
-               + case.get('labels', []) + [t or '' for t in case.get('tooltips') or []])
+               + [l if isinstance(l, str) else l['text'] for l in case.get('labels', [])]
+               + [t or '' for t in case.get('tooltips') or []])
 
   def describe(self, case, out):
     op = case['op']
